@@ -625,14 +625,12 @@ func ExecutePlan(plan *Plan, p ExecuteParams) (result *Result) {
 			plan:           plan,
 		}
 
+		// Mutations run serially: everything a top-level field deferred is
+		// forced (depth-first) before the next top-level field starts.
+		// Queries run all fields, then dethunk breadth-first.
+		eCtx.serialRoot = plan.isMutation
 		data := executePlannedSelection(eCtx, plan.root, p.Root, plan.rootType, nil)
-		// Mutations run serially with each field's result
-		// dethunked depth-first; queries run all then dethunk
-		// breadth-first. The traversal here just runs the appropriate
-		// dethunker on the assembled map.
-		if plan.isMutation {
-			dethunkMapDepthFirst(data)
-		} else {
+		if !plan.isMutation {
 			dethunkMapWithBreadthFirstTraversal(data)
 		}
 		out.Data = data
@@ -678,6 +676,9 @@ func executePlannedSelection(eCtx *executionContext, sp *selectionPlan, source i
 		resolved, ok := resolvePlannedField(eCtx, parentType, source, fp, fieldPath)
 		if !ok {
 			continue
+		}
+		if path == nil && eCtx.serialRoot {
+			resolved = dethunkValueDepthFirst(resolved)
 		}
 		finalResults[fp.responseKey] = resolved
 	}
